@@ -146,7 +146,13 @@ Definition set_dropped (x : word) : word := w_not_cancelled false (w_has_waker f
 Definition set_has_result (b : bool) (x : word) : word := w_has_result b x.
 Definition set_has_waker (b : bool) (x : word) : word := w_has_waker b x.
 Definition inc_w (x : word) : word := w_count (S (count x)) x.
-Definition dec_w (x : word) : word := w_count (count x - 1) x.
+
+(* the arithmetic the transitions use, as a parameter: the proofs normalise a
+   transition with these operations kept abstract *)
+Record arith := mkarith { altb : nat -> nat -> bool; aeqb : nat -> nat -> bool; apred : nat -> nat }.
+Definition nat_arith : arith := mkarith Nat.ltb Nat.eqb Nat.pred.
+
+Definition dec_w (A : arith) (x : word) : word := w_count (apred A (count x)) x.
 
 (* the same word as the usize the code stores, and the same operations as the
    bit operations the code performs (the layout tie, TaskThm.v) *)
@@ -263,13 +269,13 @@ Definition home_user (s : st) : bool :=
 
 (* Drop for Task: dec; the thread that sees count 1 runs the final drop
    (debug_assert!(completed | cancelled), debug_assert!(!setting_waker)) *)
-Definition do_dec (s0 : st) : st :=
+Definition do_dec (A : arith) (s0 : st) : st :=
   let s := touch s0 in
   let x := wd s in
-  let last := Nat.eqb (count x) 1 in
+  let last := aeqb A (count x) 1 in
   set_fp (if last then FRes (has_result x) (has_waker x) else fp s)
-    (upd_w dec_w
-       (chk (Nat.ltb 0 (count x)
+    (upd_w (dec_w A)
+       (chk (altb A 0 (count x)
              && (negb last || (is_FNone (fp s) && (completed x || cancelled x) && nsw x))) s)).
 
 Definition do_inc (s : st) : st := upd_w inc_w (touch s).
@@ -345,12 +351,12 @@ Inductive label :=
 (* wakers on other threads *)
 | WClone | WDropW | WStart | WSched (a : sact).
 
-Definition step (c : cfg) (s : st) (l : label) : option st :=
+Definition step_gen (A : arith) (c : cfg) (s : st) (l : label) : option st :=
   match l with
   (* ---- executor ------------------------------------------------------ *)
   | EDrain =>   (* drain_sync at the start of a tick *)
     if (is_EIdle (ep s) || is_EGone (ep s)) && negb (tearing s) then
-      Some (set_synq 0 (set_hot (hot s || (Nat.ltb 0 (synq s) && is_EIdle (ep s))) s))
+      Some (set_synq 0 (set_hot (hot s || (altb A 0 (synq s) && is_EIdle (ep s))) s))
     else None
   | ERunStart =>   (* tick takes the task (make_cold, take); Task::run: unschedule *)
     if is_EIdle (ep s) && hot s && negb (tearing s) then
@@ -440,7 +446,7 @@ Definition step (c : cfg) (s : st) (l : label) : option st :=
     end
   | EDecr =>
     match ep s with
-    | EDec => Some (do_dec (set_ep EGone s))
+    | EDec => Some (do_dec A (set_ep EGone s))
     | _ => None
     end
   | ETeardown =>   (* Executor::drop -> clear: the sync queue is emptied, the task is dropped *)
@@ -482,10 +488,10 @@ Definition step (c : cfg) (s : st) (l : label) : option st :=
       let x := wd s1 in
       let s2 := chk (has_result x || negb (completed x) || cancelled x) s1 in
       if has_result x then
-        Some (do_dec (set_hp HGone (set_hlast (Some (pres_of (payload (stor s2))))
+        Some (do_dec A (set_hp HGone (set_hlast (Some (pres_of (payload (stor s2))))
                 (set_rtakes (S (rtakes s2)) (consume_result (upd_w (set_has_result false) s2))))))
       else if cancelled x then
-        Some (do_dec (set_hp HGone (set_hlast (Some PCancelled) s2)))
+        Some (do_dec A (set_hp HGone (set_hlast (Some PCancelled) s2)))
       else if completed x then Some (set_bad true s2)    (* unreachable!() *)
       else if has_waker x && same then
         Some (set_hlast (Some PPending) (chk (slot s2) s2))
@@ -503,29 +509,29 @@ Definition step (c : cfg) (s : st) (l : label) : option st :=
       let x := wd s1 in
       let s2 := upd_w set_cancelled s1 in
       if has_result x then
-        Some (do_dec (set_hp HGone (set_hdropped true (set_hcanc true
+        Some (do_dec A (set_hp HGone (set_hdropped true (set_hcanc true
                 (set_rdrops (S (rdrops s2)) (consume_result (upd_w (set_has_result false) s2)))))))
-      else Some (do_dec (set_hp HGone (set_hdropped true (set_hcanc true s2))))
+      else Some (do_dec A (set_hp HGone (set_hdropped true (set_hcanc true s2))))
     else None
   | LDetach =>
     if home_user s && is_HIdle (hp s) then
-      Some (do_dec (set_hp HGone (set_detached true s)))
+      Some (do_dec A (set_hp HGone (set_detached true s)))
     else None
   (* ---- wakers on the home thread -------------------------------------- *)
   | LWake =>     (* wake_by_ref through a clone, or through cx.waker() inside the poll *)
-    if home_user s && (Nat.ltb 0 (lw s) || match ep s with EPolling => true | _ => false end) then
+    if home_user s && (altb A 0 (lw s) || match ep s with EPolling => true | _ => false end) then
       Some (local_schedule s)
     else None
   | LCloneW =>
-    if home_user s && (Nat.ltb 0 (lw s) || match ep s with EPolling => true | _ => false end) then
+    if home_user s && (altb A 0 (lw s) || match ep s with EPolling => true | _ => false end) then
       Some (set_lw (S (lw s)) (do_inc s))
     else None
   | LDropW =>
-    if home_user s && Nat.ltb 0 (lw s) then Some (do_dec (set_lw (lw s - 1) s)) else None
+    if home_user s && altb A 0 (lw s) then Some (do_dec A (set_lw (apred A (lw s)) s)) else None
   | WSendOut =>
-    if home_user s && Nat.ltb 0 (lw s) then Some (set_wi (S (wi s)) (set_lw (lw s - 1) s)) else None
+    if home_user s && altb A 0 (lw s) then Some (set_wi (S (wi s)) (set_lw (apred A (lw s)) s)) else None
   | WSendIn =>
-    if Nat.ltb 0 (wi s) then Some (set_lw (S (lw s)) (set_wi (wi s - 1) s)) else None
+    if altb A 0 (wi s) then Some (set_lw (S (lw s)) (set_wi (apred A (wi s)) s)) else None
   (* ---- JoinHandle on another thread ----------------------------------- *)
   | HPollStart =>
     match hp s with
@@ -588,7 +594,7 @@ Definition step (c : cfg) (s : st) (l : label) : option st :=
     end
   | HDecr =>
     match hp s with
-    | HDec => Some (do_dec (set_hp HGone s))
+    | HDec => Some (do_dec A (set_hp HGone s))
     | _ => None
     end
   | HCancelStart dr =>   (* Task::cancel(dr): self.schedule() = Remote::schedule: start_scheduling *)
@@ -637,23 +643,26 @@ Definition step (c : cfg) (s : st) (l : label) : option st :=
     | _ => None
     end
   (* ---- wakers on other threads ---------------------------------------- *)
-  | WClone => if Nat.ltb 0 (wi s) then Some (set_wi (S (wi s)) (do_inc s)) else None
-  | WDropW => if Nat.ltb 0 (wi s) then Some (do_dec (set_wi (wi s - 1) s)) else None
+  | WClone => if altb A 0 (wi s) then Some (set_wi (S (wi s)) (do_inc s)) else None
+  | WDropW => if altb A 0 (wi s) then Some (do_dec A (set_wi (apred A (wi s)) s)) else None
   | WStart =>
-    if Nat.ltb 0 (wi s) then
+    if altb A 0 (wi s) then
       let s1 := touch s in
       Some (w_arrive (sched_enter c false (wd s1))
-                     (set_wi (wi s1 - 1) (upd_w start_scheduling s1)))
+                     (set_wi (apred A (wi s1)) (upd_w start_scheduling s1)))
     else None
   | WSched a =>
     let p := src_of a in
-    if Nat.ltb 0 (wcnt p s) then
+    if altb A 0 (wcnt p s) then
       match sched_step c a p s with
-      | Some (s1, r) => Some (w_arrive r (set_wcnt p (wcnt p s1 - 1) s1))
+      | Some (s1, r) => Some (w_arrive r (set_wcnt p (apred A (wcnt p s1)) s1))
       | None => None
       end
     else None
   end.
+
+
+Definition step (c : cfg) (s : st) (l : label) : option st := step_gen nat_arith c s l.
 
 Fixpoint steps (c : cfg) (s : st) (ls : list label) : option st :=
   match ls with
